@@ -591,6 +591,16 @@ def schedule {κ : Type} (env : Nat → List (Op κ)) : Nat → List κ → List
   | _, [] => []
   | k, t :: ts => env k ++ [.dsend t] ++ schedule env (k + 1) ts
 
+/-- The audit channel together with what its consumer has read so far, as the world of the audit
+transmitter: `send` / `drop` act on the channel. -/
+def worldTx {κ : Type} : Tx (Chan κ × List κ) κ :=
+  ⟨fun w x => let r := w.1.send x; ((r.1, w.2), r.2), fun w => (w.1.dropTx, w.2)⟩
+
+/-- An audit consumer that, while the loop waits for its `K`-th `feed.next()`, reads everything queued and
+then drops its receiver (and does nothing at any other time). -/
+def dropEnv {κ : Type} (K : Nat) (i : Nat) (w : Chan κ × List κ) : Chan κ × List κ :=
+  if i == K then (w.1.dropRx, w.2 ++ w.1.queue) else w
+
 /-- The engine of `Model/Audit.lean` (C10) as a `Runner`: `process_with_audit`, the `FeedEnded` record
 (which also consumes a sequence number), `Terminal for EngineAudit`. -/
 def auditRunner : Runner Audit.EngA (Engine.Event × Audit.Ask) Audit.Tick where
